@@ -361,6 +361,17 @@ impl CtcDecoder {
                 }
             }
 
+            // Extensions with zero probability only enter the top-K list while
+            // it has room. Drop them, unless every extension has zero
+            // probability, so that the beam never carries impossible prefixes
+            // (which would later be reported with a score of -inf).
+            if topk_extensions
+                .iter()
+                .any(|ext| ext.prob > f32::NEG_INFINITY)
+            {
+                topk_extensions.retain(|ext| ext.prob > f32::NEG_INFINITY);
+            }
+
             beam = topk_extensions
                 .iter()
                 .map(|ext| {
